@@ -5,7 +5,7 @@ ENGINES = [
     dict(name="corpus+slots", path="vf/gen.py harness/engine.hpp harness/corpus_main.hpp model/peg_model.hpp", serves_properties=["C01", "C02", "C04", "C05", "C06", "C08", "C09"], kind_free_text="generate-compile-run grammar corpus and slot shapes, observer control with match() wrapper, reference PEG model, rapidcheck scripts"),
     dict(name="bounds sweep + libFuzzer", path="targets/c03_bounds.cpp", serves_properties=["C03"], kind_free_text="one source built as ASan boundary sweep and as libFuzzer target; rule table of 79 rules x 4 input classes; window-hook and metamorphic oracle inside the target"),
     dict(name="zoo", path="targets/c02_zoo.cpp", serves_properties=["C02", "C03", "C06"], kind_free_text="rule zoo: every hand-written match() rule in rewinding contexts on exhaustive short inputs, invariants from the observer control"),
-    dict(name="enumerators+rapidcheck", path="targets/", serves_properties=["C10", "C14", "C15", "C16", "C17", "C19", "C20"], kind_free_text="total enumeration of finite spaces plus rapidcheck generators, explicit independent oracles"),
+    dict(name="enumerators+rapidcheck", path="targets/", serves_properties=["C10", "C14", "C15", "C16", "C17", "C18", "C19", "C20"], kind_free_text="total enumeration of finite spaces plus rapidcheck generators, explicit independent oracles"),
 ]
 NOTES = "All checks: ./check <id> --tier quick|thorough [--replay FILE]; seeds from VERIF_SEED; budgets are case counts."
 NOT_YET = {}
@@ -89,6 +89,12 @@ CLAIMS = {
         text="Exploration: every string over {Open, Marker, Close, LF, CR, x, a} that starts with the opening character up to length 8 (thorough 10) for 10 instances (three character triples, five end-of-line policies, two content rules), random longer strings with levels 0..4 and decoys; result, consumed length, the span handed to the content action and 'nothing consumed on failure' are compared with an independent scanner, bare and inside sor<raw_string,any>.",
         design_ref="DESIGN.md section 2 C16",
         note="Trusted: the scanner lua_ref() in targets/c16_raw_string.cpp."),
+    "C18": dict(
+        engine="enumerators+rapidcheck",
+        technique="guarded-vs-unguarded differential over recursive shapes x limits x nesting depths, and guarded rule vs the same rule on the truncated input for byte limits at every offset; exhaustive short inputs + rapidcheck; window hook",
+        text="Exploration: eight recursive shapes (incl. guarded rule as direct alternative, recursion only inside look-ahead/disabled sections, limit error caught and guarded again) x five limits x nestings 0..N+3 and all strings to length 7 over {a,b,c}; eight guarded rule kinds under limit_bytes/check_bytes x five limits x offsets 0..6 x all strings to length 6/7, also inside at<> and disable<>. Within the limit the guarded run must equal the unguarded one, beyond it the documented error; depth counter and input end must be restored in every outcome; never more than N bytes matched or inspected (guarded hook).",
+        design_ref="DESIGN.md section 2 C18",
+        note="Trusted: unguarded PEGTL runs as reference for guarded ones; the guarded window hook."),
     "C19": dict(
         engine="enumerators+rapidcheck",
         technique="exhaustive short inputs x every position obtained from real runs x policies x tracking x initial counters, against an independent line splitter",
